@@ -73,6 +73,31 @@ level or as a default), C18-R2 (per-entry freshness, exceptional edges do not
 count as assignments), C19-R4 (no join under a lock the spinner takes), C19-R5
 (join before the end frame), C20-R6 (gap text copied from the source line).
 
+**Refactor twins (false-alarm test).** A second round of twenty sub-agents, again
+given only a property record and a scratch worktree, each wrote four
+behaviour-preserving changes of different kinds to the code named in the
+property's anchors (rename private names, extract / inline a helper,
+restructure control flow, reorder / split statements, equivalent idioms,
+modernise). All 80 keep the suite at baseline and are kept as
+`/verif/twins/<ID>-<n>.diff`. Run against all 20 checks
+(`tools/try_refactors.py`), the round-1/2 rules raised an alarm on 26 of them
+- every one a defect of the *checker* (a rule tied to a name, to one
+syntactic form, or to one function where the construct had moved to a
+helper). All 26 were corrected in the rules (never by loosening what is
+demanded): anchors are now found by what the code does (the validity
+predicate and cursor advance of the tokenizer, the listener store and its
+sorted cache, the section scan, the spinner thread attribute, the marker
+fields of the builder and the field behind a getter), guards are accepted in
+either polarity / conjunct order / De Morgan form, and every rule that looks
+for a construct in a function also looks through the private helpers that
+function calls on `self` (resets, invalidations, collision checks, joins,
+registrations, formatter choice, gate level table, option-token prefix,
+report writes). Taint findings are keyed by (class, kind of source -> kind of
+sink) so that extracting a helper or renaming a local does not turn a known
+finding into a new one. Now **0 of 80** raise an alarm, and all seeds are
+reported exactly as before. The four twins of each property are part of that
+property's thorough self-test.
+
 Findings the sub-agents reported about the *unchanged* tree while looking for
 seeds (cross-checked): markup in messages / file names makes `run()` raise
 (= K1a-K1h); `help help` vs `help --help` differ, sections ignore `-q`/`-v` of
